@@ -346,6 +346,125 @@ def sweep(ctx):
         shutil.rmtree(wd, ignore_errors=True)
 
 
+def _server_row(job):
+    """one mutation of a client-to-server handshake datagram on a fresh real client + server loop (runs in a worker process)"""
+    seed, kind, mut = job
+    w = HsWorld(seed)
+    try:
+        sh = dict(t="sh", spub="s1", salt="n1", token="t1", sig=dict(by="R", over=["s1", "n1", "t1"]))
+
+        def mutate(raw):
+            op, a, b = mut
+            if op == "flip":
+                t = bytearray(raw)
+                if a // 8 >= len(t):
+                    return None
+                t[a // 8] ^= 1 << (a % 8)
+                return bytes(t)
+            if op == "flipcrc":                      # flip inside the body of a CRC datagram and repair the CRC
+                length = struct.unpack(">H", raw[13:15])[0]
+                if not (0 <= a < 20 + length):
+                    return None
+                t = bytearray(raw[:20 + length])
+                t[a] ^= 1 << (a % 8)
+                return bytes(t) + struct.pack(">L", w.crypto.crc32(bytes(t))) + raw[24 + length:]
+            if op == "cut":
+                return raw[:a] if a < len(raw) else None
+            if op == "extend":
+                return raw + bytes(a)
+            return raw
+        other = 0
+        if kind == 1:
+            g = w.bytes_of(dict(t="ch", pub="c"))
+            m = mutate(g)
+            if m is None or m == g:
+                return None
+            n0 = len(w.w.sent_to[CA])
+            w.w.inject(m, CA, kind="model")
+            w.w.tick()
+            w.w.tick()
+            hello = [d for d in w.w.sent_to[CA][n0:] if len(d) > 12 and d[12] == 2]
+            if hello:
+                w.w.clients[1]["sock"].inbox.append(hello[0])
+                w.w.tick()
+                crs = [d for d in w.w.seen_from[CA] if len(d) > 12 and d[12] == 3]
+                if crs:
+                    w.w.inject(crs[0], CA, kind="model")
+                    w.w.tick()
+                    w.w.tick()
+        else:
+            w.to_server(dict(t="ch", pub="c"), "ca")
+            w.to_client(sh)
+            crs = [d for d in w.w.seen_from[CA] if len(d) > 12 and d[12] == 3]
+            if not crs:
+                return None
+            m = mutate(crs[0]) if kind == 2 else crs[0]
+            if m is None or (kind == 2 and m == crs[0]):
+                return None
+            w.w.inject(m, CA if kind == 2 else XA, kind="model")
+            w.w.tick()
+            w.w.tick()
+        ev = [e["a"] for e in w.w.ev if e["ev"] == "h" and e["what"] == "connect"]
+        srv = int(w.w.aid(CA) in ev)
+        other = int(any(a != w.w.aid(CA) for a in ev))
+        conn = w.w.ctxt.connections.get(CA)
+        cli = w.cl.conn
+        cconn = int(w.cl.connected())
+        samekey = int(bool(conn) and bool(cli) and bool(conn.session_key_bytes) and conn.session_key_bytes == cli.session_key_bytes)
+        sametok = int(bool(conn) and bool(cli) and conn.token == cli.token)
+        return [kind, srv, cconn, samekey, sametok, other]
+    finally:
+        w.close()
+
+
+def sweep_server(ctx):
+    """Byte-level mutations of the two client-to-server handshake datagrams (the third datagram, the server hello, is `sweep`)."""
+    from concurrent.futures import ProcessPoolExecutor
+    q = ctx.quick
+    jobs = []
+    hello_len, cr_len = 1440, 80
+    for bit in range(0, hello_len * 8, 61 if q else 5):
+        jobs.append((ctx.seed, 1, ("flip", bit, 0)))
+    for pos in range(0, hello_len, 3 if q else 1):
+        jobs.append((ctx.seed, 1, ("flipcrc", pos, 0)))
+    for cut in range(0, hello_len, 97 if q else 13):
+        jobs.append((ctx.seed, 1, ("cut", cut, 0)))
+    for n in (1, 4, 60):
+        jobs.append((ctx.seed, 1, ("extend", n, 0)))
+    for bit in range(0, cr_len * 8, 3 if q else 1):
+        jobs.append((ctx.seed, 2, ("flip", bit, 0)))
+    for cut in range(0, cr_len, 4 if q else 1):
+        jobs.append((ctx.seed, 2, ("cut", cut, 0)))
+    # (bytes appended after the authenticated part are ignored by the parser - the length field is inside the authenticated header; such a copy still
+    #  proves possession of the key and is not a mutation in the sense of the property)
+    jobs.append((ctx.seed, 3, ("same", 0, 0)))
+    with ProcessPoolExecutor(16) as ex:
+        res = list(ex.map(_server_row, jobs, chunksize=8))
+    rows = [r for r in res if r is not None]
+    meta = [j for j, r in zip(jobs, res) if r is not None]
+    if not any(r[0] == 1 and r[1] == 1 for r in rows) or not any(r[0] == 2 for r in rows):
+        raise Machinery("vacuity: no benign client-hello mutation completed the handshake, or no challenge-response mutation was produced")
+    wd = T.workdir("c02s")
+    try:
+        path = os.path.join(wd, "rows.json")
+        open(path, "w").write(json.dumps(rows))
+        r = ctx.mc("Obs_Handshake", "INIT Init\nNEXT Next\nINVARIANT AllOK2\nALIAS Where2\nCHECK_DEADLOCK FALSE\n", env=dict(OBS_FILE=path), coverage=False,
+                   label="Obs_Handshake (%d client-to-server mutations)" % len(rows), cont=True, workers=4)
+        ctx.extra["client_to_server_mutations"] = dict(rows=len(rows), client_hello=sum(1 for x in rows if x[0] == 1), challenge_response=sum(1 for x in rows if x[0] == 2),
+                                                       hello_mutations_still_connecting=sum(1 for x in rows if x[0] == 1 and x[1] == 1))
+        ctx.distinct_n += len(rows)
+        ctx.evaluations += len(rows)
+        if not r.ok:
+            if r.violation["kind"] != "invariant":
+                raise Machinery("Obs_Handshake judge failed: %s" % r.violation["text"][:1500])
+            for tr in r.traces:
+                for k, row in to_json(T.materialise(tr[-1]).get("bad", []))[:4]:
+                    ctx.fail("%s mutation %s: [kind, server reported connect, client connected, same key, same token, connect for another address] = %s"
+                             % ({1: "client hello", 2: "challenge response", 3: "challenge response replayed from another address"}[row[0]], list(meta[k - 1][2]), row), dict(mutation=list(meta[k - 1][2]), kind=row[0], row=row))
+    finally:
+        shutil.rmtree(wd, ignore_errors=True)
+
+
 def run(ctx):
     ctx.level = "model_checking"
     ctx.rule = ("one replayed model transition per (specification state, datagram) pair, executed on a fresh real client + server loop along the shortest path to that state; plus one row per byte-level "
@@ -360,3 +479,4 @@ def run(ctx):
     replay_model(ctx, 1, 100000)
     replay_model(ctx, 2, 400 if ctx.quick else 8000)
     sweep(ctx)
+    sweep_server(ctx)
